@@ -21,7 +21,14 @@ PROPS = {
     "C06": P(6, ["C06"], stateful=True),
     "C07": P(7, ["C07"], stateful=True),
     "C17": P(17, ["C17"], stateful=True),
-    "C15": P(15, ["C15"]),
+    "C15": P(15, ["C15", "C15b", "C15x"],
+        rule="op `sizes T`: the constructors' IsFixedByteLength/TypeByteLength/MinByteLength/MaxByteLength vs model Sizes.typeSizes (CORR) and vs Spec isFixed/typeByteLength/minSize/maxSize unless maxSize >= 2^64 (PROP); "
+             "op `sizes.wit T`: the library encodes/decodes/re-encodes minimum and maximum witnesses; C15b enumerates every quantifier length on every leaf/series kind, depth 1-2 exhaustively over a reduced alphabet, overflow-boundary types; "
+             "C15x replays the recorded 64-bit-boundary finding; distinct = distinct type shapes x outcome",
+        explanation="C15_eq: model of the constructors' wrapping uint64 arithmetic = spec sizes; C15_sound/C15_fixed/C15_tight_min/max: spec bounds are sound and tight; C15_reported_bounds combines them",
+        assumptions=["bitLensOk (every Bitvector N+7 < 2^64, every Bitlist N+8 < 2^64): without it the property is false (C15_eq_full_false; recorded known finding D19)",
+                     "maxSize < 2^64 (property text)", "ContainerType's offsetsCount modelled as Nat (a Go slice has < 2^63 elements)"],
+        trusted=COMMON_TRUST + ["independent big-integer size computation and witness builder in harness/ops_sizes.go (used to pick witnesses only)"]),
     "C16": P(16, ["C16"],
         rule="model obs == Go obs (CORR) for every g64.* op; PROP verdict computed on Nat (Nat.log2, paths, minimal LE bytes) independent of the model; "
              "all values < 2^17 (thorough; quick: < 2^12 + 1/16 slice), 2^k and 2^k±1, random values per bit-length class; distinct = distinct op lines",
